@@ -26,7 +26,10 @@ NoKB == [t |-> "nokb"]
 Ids(ds) == [i \in DOMAIN ds |-> ds[i].id]
 MsgId(m) == <<m.jwt.id, Ids(m.discs), IF m.kb = NoKB THEN "" ELSE m.kb.id>>
 Signed(key, alg, id) == [key |-> key, alg |-> alg, id |-> id]
-AlgFam(alg) == CASE alg = "ES256" -> "EC" [] alg = "EdDSA" -> "ED" [] alg = "HS256" -> "HMAC" [] OTHER -> "?"
+\* the key family an algorithm name belongs to ("?" = not an algorithm a verifier may accept: none, unknown names)
+AlgFam(alg) == CASE alg = "ES256" -> "EC" [] alg = "ES384" -> "EC384" [] alg = "EdDSA" -> "ED"
+                 [] alg \in {"HS256", "HS384", "HS512"} -> "HMAC"
+                 [] alg \in {"RS256", "RS384", "RS512", "PS256", "PS384", "PS512"} -> "RSA" [] OTHER -> "?"
 \* digest -> decoded disclosure for a presented list (duplicates collapse: repeating a disclosure changes nothing)
 DMapS(ds) == LET ok == {i \in DOMAIN ds : ds[i].dec # NONE} IN
              TLCEval([g \in {ds[i].dg : i \in ok} |-> ds[CHOOSE i \in ok : ds[i].dg = g].dec])
